@@ -246,6 +246,14 @@ def spec_distributions():
         dist("lognormal_nested", "LogNormal", "nested",
              {"loc": P("nn_loc", [0.0, 0.1, 0.2, 0.3, 0.4, 0.5], REAL), "scale": P("nn_scale", [0.5])}),
         dist("gamma_view", "Gamma", "v01", {"concentration": P("gv_conc", [2.0, 3.0]), "rate": P("gv_rate", [1.0])}),
+        # the base of the view has consumers of its own: a prior on the whole vector, a transformed copy and a
+        # sibling view (an assignment THROUGH v01 must reach all of them)
+        dist("lognormal_vbase", "LogNormal", "vbase", {"loc": P("vb_loc", [0.0, 0.1, -0.1], REAL), "scale": P("vb_scale", [1.5, 1.2, 1.0])}),
+        {"id": "vbase_log", "type": "TransformedParameter", "transform": "torchtree.distributions.transforms.LogTransform",
+         "x": "vbase"},
+        dist("normal_vbase_log", "Normal", "vbase_log", {"loc": P("vl_loc", [0.2, 0.0, 0.1], REAL), "scale": P("vl_scale", [2.0, 1.0, 1.5])}),
+        {"id": "v2", "type": "ViewParameter", "parameter": "vbase", "indices": "2:"},
+        dist("gamma_v2", "Gamma", "v2", {"concentration": P("g2_conc", [2.5]), "rate": P("g2_rate", [1.5])}),
         {"id": "gmrf_y", "type": "GMRF", "x": "y2", "precision": "g_rate"},
         {"id": "gmrfcov", "type": "GMRFCovariate", "field": P("cov_field", [1.0, 2.0, 3.0], REAL),
          "precision": P("cov_prec", [0.5]), "covariates": P("cov_z", [[1.0, 2.0], [3.0, 4.0], [5.0, 6.0]], REAL),
@@ -253,7 +261,8 @@ def spec_distributions():
         {"id": "gmrfint", "type": "GMRFGammaIntegrated", "x": "cov_field", "shape": 1.5, "rate": 2.0},
         joint("joint", ["mvn", "bridge", "bridge2", "mix", "normal_cat", "gamma_on_cat", "cat_exp",
                         "normal_affine", "affine", "detnorm", "gmrf_y", "gmrfcov", "gmrfint",
-                        "lognormal_nested", "gamma_view", "e1"]),
+                        "lognormal_nested", "gamma_view", "e1", "lognormal_vbase", "normal_vbase_log", "vbase_log",
+                        "gamma_v2"]),
     ])
 
 
@@ -890,7 +899,10 @@ class Real:
         if k == "KLeaf":
             cur = o.tensor.detach()
             dom = W.domains.get(W.obj_names[i], POS)
-            b = torch.tensor(base[W.obj_names[i]], dtype=cur.dtype).reshape(cur.shape) if W.obj_names[i] in base else cur
+            try:
+                b = torch.tensor(base[W.obj_names[i]], dtype=cur.dtype).reshape(cur.shape) if W.obj_names[i] in base else cur
+            except RuntimeError as e:
+                raise ExtractError(f"leaf {W.obj_names[i]}: current shape {tuple(cur.shape)} vs recorded value {base[W.obj_names[i]]}: {e}")
 
             def U(lo, hi):
                 return torch.tensor([rng.uniform(lo, hi) for _ in range(max(cur.numel(), 1))],
